@@ -503,7 +503,7 @@ func TestCheck(t *testing.T) {
 			"fast executors only: a run that stays due because its worker is busy makes the loop poll by design; with fake time such polling can never end, so slow executors are outside this check",
 			"sequentially consistent interleavings at the granularity of the scheduler's mutex operations and hook points",
 		},
-		QuickBudgetS: 60, ThoroughBudgetS: 1200, WorkerEnv: []string{"GOMAXPROCS=1"},
+		QuickBudgetS: 180, ThoroughBudgetS: 1200, WorkerEnv: []string{"GOMAXPROCS=1"},
 		Run: func(c *vlib.Ctx) {
 			depth, bound := 4, 2
 			if c.Thorough() {
